@@ -2,15 +2,13 @@
 
 package actor
 
-// Harness "network" for real replicatorActors (C41). Several replicators are spawned in one
+// Harness "network" for real replicatorActors (C41; mechanical copy of c39b_net_verif_test.go
+// with the identifier prefix changed, so that each check builds on its own with VERIF_ONLY). Several replicators are spawned in one
 // local actor system whose TopicActor reference points at a harness actor: everything a
 // replicator publishes (deltas, tombstones) and every full state it sends in answer to a
 // digest is captured there instead of being disseminated. The harness then delivers the
 // captured protobuf messages (re-encoded through proto.Marshal/Unmarshal, as remoting would)
 // to the other replicators in whatever order / multiplicity a script says.
-//
-// NOTE: c41_net_verif_test.go is a mechanical copy of this file (identifier prefix changed)
-// so that each check builds on its own with VERIF_ONLY.
 
 import (
 	"context"
